@@ -1,0 +1,8 @@
+//go:build verif
+
+package parser
+
+// VerifToken exposes the current raw token and the unget flag.
+func (p *Parser) VerifToken() (rune, bool) {
+	return p.token, p.ungetFlg
+}
